@@ -54,7 +54,7 @@ def run(ctx):
     ctx.assumptions += [
         "base field and extension field are identified in the model (mul_base / E::from are the identity); extension-field behaviour is covered by the falsifier only",
         "fft::evaluate_poly_with_offset / interpolate_poly_with_offset compute the DFT / inverse DFT over the coset (property C09); the model uses the direct formulas",
-        "interpolation uniqueness on the ce domain and 'interpolate returns a polynomial with the given evaluations' enter the capstone as explicit hypotheses (C09 / C20)",
+        "capstone C17_composition_is_definition: interpolation is C09's FFT model (round trip discharged from C09_interpolate_with_offset_spec / C09_get_inv_twiddles), the polynomial form of comp_def is discharged from validity through C01_air_quotient_exists; remaining explicit hypotheses: root-of-unity relations + odd characteristic, trace LDE rows = trace polynomials on the LDE coset, numerators given as coefficient lists vanishing on the enforced steps with quotient lengths <= min(|ce|, columns*n), ce coset disjoint from the trace domain",
         "Lagrange-kernel constraints: additive hooks in the model (lagrange_acc / lagrange_term) only; no theorem, no family member uses them",
         "the trace LDE rows are the trace polynomials evaluated over the LDE coset (C09); given to the model as data in the correspondence",
     ]
@@ -79,9 +79,12 @@ def run(ctx):
         budget = (20000 if quick else 400000) * (3 if ctx.broken() else 1)
         _falsify(ctx, hb, budget)
     ctx.notes["theorem_scope"] = {
-        "theorems": "periodic_row_spec, boundary_repr_equiv, column_split_recombine (+ truncation form), verifier_eval_agrees, table_row_spec, "
-                    "composition_is_definition_partial (explicit interpolation hypotheses), all for any field with FLaws and all sizes",
+        "theorems": "periodic_row_spec, boundary_repr_equiv, column_split_recombine (+ truncation form), verifier_eval_agrees (aux / main only), "
+                    "table_row_spec (multi-segment) and table_row_spec_single_segment, composition_is_definition (single-segment) and "
+                    "composition_is_definition_aux (interpolation from C09, polynomial form from validity via C01), "
+                    "composition_is_definition_partial (abstract interpolation hypotheses); all for any field with FLaws and all sizes",
         "correspondence_only": "Lagrange-kernel constraints (hooks in the model, not exercised); extension fields (falsifier)",
+        "falsifier_mutation_tests": "notes/C17.design.md: 9 seeded changes on a private copy of /repo, all reported at the quick budget",
     }
     ctx.trusted.insert(0, "Coq 8.16.1 kernel; Print Assumptions under every theorem")
     ctx.trusted.append("hand-written model coq/Model/Composition.v: faithfulness rests on the per-run correspondence (whole evaluate() incl. aux segment, "
